@@ -212,17 +212,13 @@ Theorem C02_LLDP_Type_spec : forall t,
 Proof. exact LLDP_Type_spec. Qed.
 Print Assumptions C02_LLDP_Type_spec.
 
-(* LLDP.Capability(v) against 802.1AB table 8-4 (bit 0 = least significant = Other): refuted (a router, capability
-   octet 0x10, is printed as "AP"; recorded finding view-lldp-capability-bit-order) and characterised exactly: for
-   every value the code's answer is the spec's answer for the mirrored octet; short values agree *)
-Theorem C02_LLDP_Capability_refuted :
-  LLDP_Capability_s [0; 16] = "AP"%string /\ lldp_capability_spec [0; 16] = "router"%string.
-Proof. exact LLDP_Capability_refuted. Qed.
-Print Assumptions C02_LLDP_Capability_refuted.
-Theorem C02_LLDP_Capability_mirror_exact : forall a r b, b < 256 ->
-  LLDP_Capability_s (a :: b :: r) = lldp_capability_spec (a :: mirror8 b :: r).
-Proof. exact LLDP_Capability_mirror. Qed.
-Print Assumptions C02_LLDP_Capability_mirror_exact.
-Theorem C02_LLDP_Capability_short : forall v, (List.length v < 2)%nat -> LLDP_Capability_s v = lldp_capability_spec v.
-Proof. exact LLDP_Capability_short. Qed.
-Print Assumptions C02_LLDP_Capability_short.
+(* LLDP.Capability(v) = 802.1AB table 8-4 (bit 0 = least significant = Other ... bit 4 Router ... bit 7 Station) for
+   every byte string (full since the repair bf5afdb; before it the masks were mirrored: the refutation and the
+   mirror characterisation of round 7b are replaced by this positive theorem and the old witness as an example) *)
+Theorem C02_LLDP_Capability_spec : forall v, bytes_ok v -> LLDP_Capability_s v = lldp_capability_spec v.
+Proof. exact LLDP_Capability_spec. Qed.
+Print Assumptions C02_LLDP_Capability_spec.
+Example C02_LLDP_Capability_nonvacuous :
+  LLDP_Capability_s [0; 16] = "router"%string /\ LLDP_Capability_s [0; 20] = "bridge,router"%string /\ LLDP_Capability_s [7] = ""%string.
+Proof. exact LLDP_Capability_ex. Qed.
+Print Assumptions C02_LLDP_Capability_nonvacuous.
